@@ -383,23 +383,90 @@ def dot_orientation(prog, body):
 
 def dot_vector_gate(body):
     """truth table over (self.rows == 1, self.cols == 1, other.rows == 1, other.cols == 1): a non-panicking return must be
-    reachable exactly when each operand has a unit dimension. returns (n_tests, bad[list of str])"""
+    reachable exactly when each operand has a unit dimension. Boolean locals are propagated (the tests may be combined through
+    named flags, `let a = r == 1 || c == 1; if !(a && b) { panic }`). returns (n_tests, bad[list of str])"""
     import itertools
-    cx = BodyCtx.of(body)
+    res = Resolver(body)
     atoms = {("rows", 1): 0, ("cols", 1): 1, ("rows", 2): 2, ("cols", 2): 3}
-    tests = []
-    for c in cx.cmps:
-        for (L, R, rel) in ((c.lhs, c.rhs, c.rel), (c.rhs, c.lhs, guards.FLIP[c.rel])):
+
+    def atom_test(term):
+        """(atom index, relation) for `dim == 1` / `dim != 1` terms"""
+        c = guards._cond(res, term) if term[0] in ("bin", "call", "un") else None
+        if not c:
+            return None
+        for (L, R, rel) in ((c[0], c[2], c[1]), (c[2], c[0], guards.FLIP[c[1]])):
             d = dim_of(L)
             if d and d[0] in ("rows", "cols") and d[1][0] == "arg" and (d[0], d[1][1]) in atoms and R == ("int", 1) and rel in ("==", "!="):
-                tests.append((c, atoms[(d[0], d[1][1])], rel))
+                return atoms[(d[0], d[1][1])], rel
+        return None
+    n_tests = 0
+    for i, j, st in body.stmts():
+        if st["k"] == "assign" and st["r"]["k"] == "bin" and not st["p"]["pr"]:
+            if atom_test(res.rvalue(st["r"], 0, ())):
+                n_tests += 1
+
+    def run(assign):
+        """blocks reachable from entry under the assignment, following known boolean locals"""
+        state = {0: {}}
+        work = [0]
+        seen_states = {}
+        while work:
+            bb = work.pop()
+            blk = body.blocks[bb]
+            if blk["cleanup"]:
+                continue
+            env = dict(state[bb])
+            for st in blk["stmts"]:
+                if st["k"] != "assign" or st["p"]["pr"]:
+                    continue
+                l, r = st["p"]["l"], st["r"]
+                val = None
+                if r["k"] == "use":
+                    o = r["o"]
+                    if o["k"] == "const" and o.get("ty") == "bool":
+                        val = "true" in str(o.get("v", o.get("c", ""))).lower() or str(o.get("v", "")) == "1"
+                        if "false" in str(o).lower():
+                            val = False
+                        elif "true" in str(o).lower():
+                            val = True
+                    elif o["k"] in ("copy", "move") and not o["p"]["pr"] and o["p"]["l"] in env:
+                        val = env[o["p"]["l"]]
+                elif r["k"] == "bin":
+                    at = atom_test(res.rvalue(r, 0, ()))
+                    if at:
+                        val = assign[at[0]] if at[1] == "==" else (not assign[at[0]])
+                elif r["k"] == "un" and r.get("op") == "Not":
+                    o = r["o"]
+                    if o["k"] in ("copy", "move") and not o["p"]["pr"] and o["p"]["l"] in env:
+                        val = not env[o["p"]["l"]]
+                if val is None:
+                    env.pop(l, None)
+                else:
+                    env[l] = val
+            t = blk["term"]
+            succ = []
+            if t["k"] == "switch" and t["o"]["k"] in ("copy", "move") and not t["o"]["p"]["pr"] and t["o"]["p"]["l"] in env \
+                    and len(t["targets"]) == 1 and t["targets"][0][0] == "0":
+                succ = [t["otherwise"]] if env[t["o"]["p"]["l"]] else [t["targets"][0][1]]
+            else:
+                succ = [x for x in body.succs[bb]]
+                if t["k"] == "call" and t.get("d") and not t["d"]["pr"]:
+                    env.pop(t["d"]["l"], None)
+            for sx in succ:
+                if body.blocks[sx]["cleanup"]:
+                    continue
+                if sx not in state:
+                    state[sx] = dict(env)
+                    work.append(sx)
+                else:
+                    merged = {k: v for k, v in state[sx].items() if env.get(k) == v}
+                    if merged != state[sx]:
+                        state[sx] = merged
+                        work.append(sx)
+        return set(state)
     bad = []
     for assign in itertools.product((False, True), repeat=4):
-        cut = set()
-        for c, k, rel in tests:
-            truth = assign[k] if rel == "==" else (not assign[k])
-            cut.add((c.bb, c.false_bb) if truth else (c.bb, c.true_bb))
-        reach = body.reachable_from([0], cut_edges=frozenset(cut))
+        reach = run(assign)
         can_return = any(r in reach for r in body.returns)
         must_reject = not ((assign[0] or assign[1]) and (assign[2] or assign[3]))
         shape = lambda r1, c1: f"{'1' if r1 else 'm'}x{'1' if c1 else 'n'}"
@@ -407,4 +474,4 @@ def dot_vector_gate(body):
             bad.append(f"accepts {shape(assign[0], assign[1])} . {shape(assign[2], assign[3])}")
         if not must_reject and not can_return:
             bad.append(f"refuses {shape(assign[0], assign[1])} . {shape(assign[2], assign[3])}")
-    return len(tests), bad
+    return n_tests, bad
